@@ -174,6 +174,9 @@ def classify_x(xline, trace_lines):
             props |= {"C08"}
         if "serialised" in rest:
             props = {"C12"}
+        elif re.search(r"schedule=\S*:[0-9]+[rm]", rest) and "differs" in rest:
+            # some task of the schedule has resource views: a stale or lost resource value
+            props |= {"C15"}
     elif oracle == "query":
         props |= {"C03"}
     elif oracle == "par":
@@ -208,7 +211,9 @@ def mutate_runs(tier, seed):
 
 
 def res_runs(tier, seed):
-    return core_runs(tier, seed, profile="multi-res-serde")
+    # system resource views are exercised by the schedule family (a write through one system's
+    # resource view must be visible to the systems declared after it)
+    return core_runs(tier, seed, profile="multi-res-serde") + sched_runs(tier, seed)
 
 
 def all_runs(tier, seed):
